@@ -246,6 +246,54 @@ func partHMem(r *mc.Run, ck *checker, states *stateSet) {
 	})
 }
 
+// partHBatched: the parents start out TOGETHER in one segment (one batch indexes all of them), so
+// that deletes and updates hit a segment that already carries deletions of other parents (with
+// one call per operation every parent has a segment of its own and each segment sees at most one
+// obsoletion).
+func partHBatched(r *mc.Run, ck *checker, states *stateSet) {
+	ids := []string{"p", "q", "r"}
+	var inits [][]op
+	if r.Quick() {
+		inits = [][]op{{{id: "p", ver: 1}, {id: "q", ver: 1}, {id: "r", ver: 1}}, {{id: "p", ver: 2}, {id: "q", ver: 1}, {id: "r", ver: 2}}}
+	} else {
+		for m := 0; m < 8; m++ {
+			inits = append(inits, []op{{id: "p", ver: 1 + m&1}, {id: "q", ver: 1 + (m>>1)&1}, {id: "r", ver: 1 + (m>>2)&1}})
+		}
+	}
+	hs := enumerate(alphabet(ids), mc.Pick(r, 2, 3))
+	r.Note("H_batched_histories", len(hs)*len(inits))
+	r.ParFor(len(hs)*len(inits), 0, func(i int) {
+		init, h := inits[i%len(inits)], hs[i/len(inits)]
+		idx := newMem(true)
+		defer idx.Close()
+		model := map[string]int{}
+		b := idx.NewBatch()
+		for _, o := range init {
+			chk(b.Index(o.id, versions[o.ver].Data()))
+			model[o.id] = o.ver
+		}
+		chk(idx.Batch(b))
+		for _, o := range h {
+			if err := apply(idx, model, o); err != nil {
+				ck.bk.add("history:mem:operation-error", &example{cost: [3]int{len(h)}, key: histString(h),
+					detail: fmt.Sprintf("%s failed in %s: %v", o, histString(h), err), replay: map[string]any{"history": histString(h)}})
+			}
+		}
+		r.Transition(1)
+		states.visit(r, modelKey(model))
+		path := append(append([]op{}, init...), h...)
+		sig := ck.observe(idx, model, path, "mem:parents-share-a-segment")
+		ck.outcome("H|batched|" + sig)
+		touched := map[string]bool{}
+		for _, o := range h {
+			touched[o.id] = true
+		}
+		if len(touched) >= 2 {
+			r.Count("H:histories_obsoleting_two_parents_of_one_segment", 1)
+		}
+	})
+}
+
 func countHist(r *mc.Run, h []op) {
 	seen := map[string]int{} // 1 = live, 2 = deleted
 	reidx, delLive, recreate := false, false, false
